@@ -33,6 +33,8 @@ S0(P) == [ now   |-> Zero,
            got   |-> [a \in Acts(P) |-> Zero],
            fin   |-> [a \in Acts(P) |-> None],
            ready |-> [a \in Acts(P) |-> None],      \* end of the latency phase of a communication
+           tie   |-> [a \in Acts(P) |-> FALSE],     \* completed at the very date one of its resources went off: the
+                                                    \* statements leave the outcome of that tie open (done or failed)
            cbound |-> [a \in Acts(P) |-> Zero],     \* smallest bandwidth of the route when the communication started
            prio  |-> [a \in Acts(P) |-> P.acts[a].prio],
            ubound |-> [a \in Acts(P) |-> P.acts[a].bound],
@@ -168,8 +170,10 @@ Complete(P, s) ==
 
 \* activities in progress that use a resource which is off now fail
 FailOff(P, s) ==
-  LET dead == { a \in Acts(P) : s.ast[a] \in {"lat", "run", "susp"} /\ \E c \in Uses(P, a) : ~ResOn(P, s, c) } IN
-  [s EXCEPT !.ast = [a \in Acts(P) |-> IF a \in dead THEN "failed" ELSE s.ast[a]],
+  LET dead == { a \in Acts(P) : s.ast[a] \in {"lat", "run", "susp"} /\ \E c \in Uses(P, a) : ~ResOn(P, s, c) }
+      tied == { a \in Acts(P) : s.ast[a] = "done" /\ s.fin[a] = s.now /\ \E c \in Uses(P, a) : ~ResOn(P, s, c) } IN
+  [s EXCEPT !.tie = [a \in Acts(P) |-> s.tie[a] \/ a \in tied],
+            !.ast = [a \in Acts(P) |-> IF a \in dead THEN "failed" ELSE s.ast[a]],
             !.fin = [a \in Acts(P) |-> IF a \in dead THEN s.now ELSE s.fin[a]]]
 
 Apply(P, s, e) ==
@@ -180,8 +184,9 @@ Apply(P, s, e) ==
     [] e.op = "lon"     -> [s EXCEPT !.lon[e.a] = TRUE]
     [] e.op = "suspend" -> IF s.ast[e.a] = "run" THEN [s EXCEPT !.ast[e.a] = "susp"] ELSE s
     [] e.op = "resume"  -> IF s.ast[e.a] = "susp" THEN [s EXCEPT !.ast[e.a] = "run"] ELSE s
-    [] e.op = "setprio" -> [s EXCEPT !.prio[e.a] = e.v]
-    [] e.op = "setbound" -> [s EXCEPT !.ubound[e.a] = e.r]
+    \* changes address an activity in progress; before its start or after its end there is nothing to change
+    [] e.op = "setprio" -> IF s.ast[e.a] \in {"run", "susp"} THEN [s EXCEPT !.prio[e.a] = e.v] ELSE s
+    [] e.op = "setbound" -> IF s.ast[e.a] \in {"run", "susp"} THEN [s EXCEPT !.ubound[e.a] = e.r] ELSE s
     [] OTHER -> s
 
 RECURSIVE ApplyDue(_, _)
